@@ -22,9 +22,14 @@ func (b *Bus) Send(ctx context.Context, event any) (ok bool) {
 	needGc := false
 
 	// send the event to each listener that's not closed
-	for _, l := range listeners {
+	for i, l := range listeners {
 		ok, active := l.send(ctx, event)
 		if !ok {
+			// ctx has ended while this listener was not receiving. The listeners after it must not pay for that:
+			// whoever is ready to receive right now still gets the event.
+			for _, rest := range listeners[i+1:] {
+				rest.trySend(event)
+			}
 			return false
 		}
 		if !active {
@@ -98,6 +103,18 @@ func (l *listener) send(ctx context.Context, event any) (ok bool, active bool) {
 	case l.ch <- event:
 		// event sent successfully
 		return true, true
+	}
+}
+
+// trySend hands event to the listener only if it is receiving at this moment.
+func (l *listener) trySend(event any) {
+	l.m.RLock()
+	defer l.m.RUnlock()
+
+	select {
+	case <-l.ctx.Done():
+	case l.ch <- event:
+	default:
 	}
 }
 
